@@ -259,7 +259,9 @@ func runC19(p *Prog, r *Report) {
 	loopCompleteRule(p, r, "C19.R7", "every comment of a doc group and every line of it is looked at: the loops of parse.CommentToString and parse.SettingLines have no break/continue/goto/return that leaves them early (a `break` captured by an inner switch is fine)", []loopSpec{
 		{"config/parse.CommentToString", "comments/lines", ""},
 		{"config/parse.SettingLines", "lines", ""},
+		{"comments.ParseDocs", "files of a package", "ast.File"},
 	})
+	sharedMapAliasRule(p, r, "C19.R8")
 }
 
 // docOrigin: e is parse.CommentToString(X.Doc) (possibly via a local variable or a
